@@ -76,13 +76,13 @@ correspondence run checks on every commit that this model predicts the exact sha
 real code wrote; the theorems say that such a commit cannot change what the bucket contains and keeps
 the invariant under which the reads above are correct. -/
 
-/-- commit does not change the contents of a bucket: for every list of rebalance steps, every page
-size, every split threshold -/
+/-- commit does not change the contents of a bucket: for every list of rebalance steps, every list of
+touched header keys, every page size, every split threshold -/
 theorem commit_preserves_contents (p : Params) (pagesize hdr leafHdr branchHdr bmSize : Nat)
-    (steps : List RbStep) (t : Tree Bytes Ent) (h : TreeInv t) :
-    (commitTree p pagesize hdr leafHdr branchHdr bmSize steps t).flatten = t.flatten := by
+    (steps : List RbStep) (touched : List Bytes) (t : Tree Bytes Ent) (h : TreeInv t) :
+    (commitTree p pagesize hdr leafHdr branchHdr bmSize steps touched t).flatten = t.flatten := by
   obtain ⟨d, hu⟩ := h.uniform
-  exact commitTree_flatten p pagesize hdr leafHdr branchHdr bmSize steps t d hu
+  exact commitTree_flatten p pagesize hdr leafHdr branchHdr bmSize steps touched t d hu
 
 /-- the tree invariant (separators bound their subtrees, no routing gap, uniform depth) holds after
 every edit of a transaction and after its commit, hence — by induction — at every point of every
@@ -92,9 +92,10 @@ theorem invariant_through_edits (t : Tree K α) (h : TreeInv t) (ops : List (TxO
   applyOps_inv t h ops
 
 theorem invariant_through_commit (p : Params) (hp : p.Valid) (h2 : 2 ≤ p.minKeysPerNode)
-    (pagesize hdr leafHdr branchHdr bmSize : Nat) (steps : List RbStep) (t : Tree Bytes Ent) (h : TreeInv t) :
-    TreeInv (commitTree p pagesize hdr leafHdr branchHdr bmSize steps t) :=
-  commitTree_inv p pagesize hdr leafHdr branchHdr bmSize hp h2 steps t h
+    (pagesize hdr leafHdr branchHdr bmSize : Nat) (steps : List RbStep) (touched : List Bytes)
+    (t : Tree Bytes Ent) (h : TreeInv t) :
+    TreeInv (commitTree p pagesize hdr leafHdr branchHdr bmSize steps touched t) :=
+  commitTree_inv p pagesize hdr leafHdr branchHdr bmSize hp h2 steps touched t h
 
 /-- … and a tree with the invariant and no childless branch is well-formed for routing, so `get_refines`,
 `scan_refines` and `edits_refine` apply to it -/
